@@ -284,6 +284,13 @@ def oracle(case, ans):
         status, _, cur, dump_cur, at = steps[idx + 1]
         k = op[0]
         tag = f"step {idx} {op}"
+        if dump_cur is not None and (dump_cur["linenums"] != list(range(len(cur)))
+                                     or len(dump_cur["parents"]) != len(cur)
+                                     or any(not (0 <= q <= j) for j, q in enumerate(dump_cur["parents"]))):
+            # a committed tree whose line numbers are not 0..n-1 or whose parent links point outside / forwards:
+            # nothing below can be judged on it
+            fails.append(f"{tag}: committed tree is not well-formed (linenums {dump_cur['linenums']}, parents {dump_cur['parents']})")
+            break
         if status == "skip":
             if cur != prev:
                 fails.append(f"{tag}: skipped but the text changed")
@@ -393,13 +400,17 @@ def check_atf(case, op, i, prev, cur, dump_prev, dump_cur, width):
     new = cur[pos]
     if new.lstrip() != op[2].lstrip():
         return f"inserted text {new!r} is not the payload {op[2]!r}"
+    ind0 = len(prev[i]) - len(prev[i].lstrip())
+    want_txt = (" " * op[3] + op[2].lstrip()) if op[3] > 0 else ((" " * (ind0 + width) + op[2].lstrip()) if op[4] else op[2])
+    if not any(cur[j] == want_txt for j in good):
+        return f"inserted text {new!r}, expected {want_txt!r} (explicit indent / auto_indent = target indent + width / as given)"
     if dump_cur is None or dump_prev is None:
         return None
     ind = lambda t: len(t) - len(t.lstrip())  # noqa: E731
     delims = T.cfg_delims(case["syntax"], case["delims"])
+    if not is_plain(prev) or not is_plain(cur):
+        return None      # banner / macro families are delimited, not indentation based (C07 compares their trees)
     tgt = prev[i].lstrip()
-    if tgt == "" or tgt[0] in delims:
-        return None      # a comment or blank line cannot head a family; only the text effect is judged
     # parents of the old lines, before and after (indices shifted by the insertion)
     shift = lambda j: j if j < pos else j + 1  # noqa: E731
     is_cmt = lambda t: t.lstrip()[:1] != "" and t.lstrip()[0] in T.cfg_delims(case["syntax"], case["delims"])  # noqa: E731
@@ -407,6 +418,14 @@ def check_atf(case, op, i, prev, cur, dump_prev, dump_cur, width):
     # so comments are not counted as "existing lines that changed parent"
     moved = [j for j in range(len(prev)) if not is_cmt(prev[j])
              and shift(dump_prev["parents"][j]) != dump_cur["parents"][shift(j)]]
+    if tgt == "" or tgt[0] in delims:
+        # a comment or blank line heads no family: the new line cannot become its child; the clause "no existing line
+        # changes parent" is judged all the same (known finding F10d)
+        if moved and ind(new) != ind(prev[i]):
+            return f"noncfg-target-reparent: target {prev[i]!r} is a comment/blank line; old lines {moved} changed parent"
+        if moved:
+            return f"same-indent-reparent: old lines {moved} changed parent"
+        return None
     child_level = ind(new) == ind(prev[i]) + width
     if child_level:
         fam = [i] + descendants(dump_prev["parents"], i)
@@ -414,7 +433,10 @@ def check_atf(case, op, i, prev, cur, dump_prev, dump_cur, width):
             return f"child-level append landed at {pos}, outside the family {fam} of line {i}"
         newl = new.lstrip()
         payload_is_config = newl != "" and newl[0] not in delims
-        if payload_is_config and dump_cur["parents"][pos] != i:
+        childless = not any(q == i and j != i for j, q in enumerate(dump_prev["parents"]))
+        # a comment payload is attached by C02's legacy rule: to the target when it lands directly below it (childless
+        # target, `appendToFamily_childless_keeps_parents`), possibly nowhere when it lands below a deeper line
+        if (payload_is_config or childless) and dump_cur["parents"][pos] != i:
             return f"new line's parent is {dump_cur['parents'][pos]}, not the target {i}"
     if moved:
         return ("same-indent-reparent" if not child_level else "child-level-reparent") + f": old lines {moved} changed parent"
@@ -424,6 +446,8 @@ def check_atf(case, op, i, prev, cur, dump_prev, dump_cur, width):
 def known_id(case, failure):
     if "same-indent-reparent" in failure:
         return "F10b"
+    if "noncfg-target-reparent" in failure:
+        return "F10d"
     return None
 
 
